@@ -150,8 +150,9 @@ def hoisted_consts(fn, loop, ivar, seq):
 
 class WriterTable:
     """(in_tie, t, last) -> (token class, (prefix, suffix), in_tie')"""
-    def __init__(self, func, resolver=None):
+    def __init__(self, func, resolver=None, ties_are_arrays=False):
         self.func = func
+        self.ties_are_arrays = ties_are_arrays      # the callers pass numpy arrays: `[c] + ties` adds c to every element
         fn = func.node
         params = [a.arg for a in fn.args.args]
         if len(params) < 2:
@@ -365,6 +366,16 @@ class WriterTable:
                 if isinstance(itx, ast.Call) and isinstance(itx.func, ast.Name) and itx.func.id == 'range' and len(itx.args) == 1 \
                         and isinstance(itx.args[0], ast.Call) and isinstance(itx.args[0].func, ast.Name) and itx.args[0].func.id == 'len':
                     aux[k] = (v.generators[0].target.id, v.elt)
+            if isinstance(v, ast.BinOp) and isinstance(v.op, ast.Add):
+                for lst, other in ((v.left, v.right), (v.right, v.left)):
+                    if isinstance(lst, ast.List) and len(lst.elts) == 1 and isinstance(lst.elts[0], ast.Constant) and isinstance(other, ast.Name) and other.id == self.tiep:
+                        if not self.ties_are_arrays:
+                            raise Unknown('a literal list is concatenated with the tie indicators: the meaning depends on whether the callers pass lists or arrays')
+                        # numpy: [c] + array is element-wise (broadcast) addition, NOT a shift by one position
+                        elt = ast.BinOp(left=ast.Subscript(value=ast.Name(id=self.tiep, ctx=ast.Load()), slice=ast.Name(id='_j', ctx=ast.Load()), ctx=ast.Load()),
+                                        op=ast.Add(), right=lst.elts[0])
+                        ast.fix_missing_locations(elt)
+                        aux[k] = ('_j', elt)
         self.table = {}
 
         def is_prev(idx, var):
